@@ -18,12 +18,12 @@ CHECKS = {
          "DESIGN.md 5 C02"),
  "C03": ("fault_enumeration", "exhaustive pause-point x control-datagram-loss-subset enumeration on two real KCP cores",
          "The reader pauses after every possible number of segments for four durations (below the first probe to above the probe cap) and every subset of the first N control-only datagrams after the pause is lost, in one and in both directions; explicit-state BFS (depth 4) over a forged peer with the probing invariants; "
-         "whole sessions (two dialled peers, reader window in force from the first datagram, pauses up to 50 s, fates after the resume); oracles: nothing lost (prefix), window discipline while stalled, transfer completes after resume, no session closes by itself.",
+         "whole sessions (two dialled peers, reader window in force from the first datagram, pauses up to 50 s, fates after the resume); a covering subset re-run with the millisecond clock in the upper half of its range and about to wrap; oracles: nothing lost (prefix), window discipline while stalled, transfer completes after resume, no session closes by itself.",
          "DESIGN.md 5 C03"),
  "C04": ("model_checking", "invariant checking after every transition of exhaustively enumerated executions of the real KCP cores",
          "Seven window invariants (delivery queue and reorder buffer bounded by the receive window, truthful advertised window, outstanding <= send window, new segments only inside min(snd_wnd, rmt_wnd, cwnd), "
          "no admission after a timeout loss) are evaluated after every call into either endpoint over all fate vectors of symmetric, asymmetric-window, slow-reader, application-limited and warmed-up configurations; explicit-state BFS (depth 3/4) against an adversarial peer; "
-         "session clause: Write sequences over a dead and a healed network against the admission model (admitted iff pending < send window, otherwise blocked).",
+         "session clause: Write sequences over a dead and a healed network against the admission model (admitted iff pending < send window, otherwise blocked); packets rebuilt by FEC (fate: lost, input later marked recovered-by-FEC) against an independently tracked peer window (the last one advertised on the wire).",
          "DESIGN.md 5 C04"),
  "C12": ("exploration", "differential enumeration: every fate vector re-run under every boundary-placing offset of sn and clock",
          "Each base execution is re-run with initial sn and clock shifted so that the 2^31 / 2^32 boundary falls at every segment index resp. every stride of the run; normalised wire traces and delivered data must be identical. "
@@ -43,7 +43,7 @@ CHECKS = {
          "DESIGN.md 5 C20"),
  "C08": ("exploration", "complete enumeration of the length space against independently built references; interleaving exploration of concurrent callers",
          "All 13 BlockCrypt ciphers x every length 0..1500 x in-place/out-of-place x 3 (thorough 8) patterns x 2 (5) keys against crypto/cipher CFB (fixed IV), x/crypto salsa20, pbkdf2 XOR table, copy; "
-         "AES-GCM seal/open inside a 1500-byte buffer for every plaintext length; 3 (4) concurrent callers (Encrypt and Decrypt mixed) on one BlockCrypt with every block-cipher call a scheduling point, all interleavings within preemption bound 2 (3).",
+         "AES-GCM seal/open inside a 1500-byte buffer for every plaintext length; 3 (4) concurrent callers (Encrypt and Decrypt mixed) on one BlockCrypt with every block-cipher call a scheduling point, all interleavings within preemption bound 2 (3), without state caching; every datagram of real session pairs (cipher x FEC x fate vectors; data, acks, parity, out-of-band) must open under the independent implementation.",
          "DESIGN.md 5 C08"),
  "C09": ("exploration", "independent README-derived decoder applied to every datagram of exhaustively enumerated session executions",
          "Every datagram either end of a real session pair hands to the virtual PacketConn, for every fate vector over the first K datagrams and every cipher x FEC x mode configuration, is decoded by a decoder that imports nothing from kcp: "
@@ -55,7 +55,7 @@ CHECKS = {
          "and at three positions on the raw core; accepted => no panic, bound holds from then on, transfer completes; refused => only when unusable; out-of-band payload lengths around the maximum x MTU x cipher; emission-size BFS (depth 4) against a forged peer.",
          "DESIGN.md 5 C10"),
  "C13": ("model_checking", "stateless DFS over thread interleavings of the real session/listener code on a controlled scheduler with virtual time, iterated preemption bound, happens-before state caching",
-         "50 timed scripts (data, FEC-recovered data, acks, window enlarged, sessions accepted from an owning listener that is closed, deadline none->set / later / earlier / zero->set / past, Close, socket errors; 1-3 blocked callers of Read/Write/Accept) x both timer-channel semantics; every interleaving within the deviation bound "
+         "52 timed scripts (data, FEC-recovered data, draining a partly read message after Close, acks, window enlarged, sessions accepted from an owning listener that is closed, deadline none->set / later / earlier / zero->set / past, Close, socket errors; 1-3 blocked callers of Read/Write/Accept) x both timer-channel semantics; every interleaving within the deviation bound "
          "(delay bounding: preemptions, non-default thread at a blocking point, non-default ready select case); each call must return with the scripted outcome inside its virtual-time window (never before the effective deadline, not later than the instant it is due).",
          "DESIGN.md 5 C13"),
  "C15": ("model_checking", "stateless DFS with closers released at any scheduling point; leak and pool-ownership oracles",
@@ -65,16 +65,16 @@ CHECKS = {
          "DESIGN.md 5 C15"),
  "C05": ("exploration", "structure-aware bounded-exhaustive input enumeration at every position of real histories, plus explicit-state BFS with an adversarial peer",
          "Truncations, extensions, constant strings and every single boundary-value header-field edit (thorough: pairs) of every genuine datagram, re-sealed with a valid CRC/tag, fed to the real packetInput at the datagram's history position "
-         "(client, listener with/without session, foreign address); forged FEC groups and short typed bodies; raw KCP.Input header-alphabet product incl. >1500-byte payloads; forged fragment-count sequences read the way a session reads; fecDecoder.decode alphabets and stale-flood sequences (64 packets in distinct groups behind the window); adversarial BFS (depth 3/4) on the core. "
+         "(client, listener with/without session, foreign address); forged FEC groups and short typed bodies; raw KCP.Input header-alphabet product incl. >1500-byte payloads; forged fragment-count sequences read the way a session reads, and against real sessions and their Read with small, equal and large buffers; fecDecoder.decode alphabets and stale-flood sequences (64 packets in distinct groups behind the window); adversarial BFS (depth 3/4) on the core. "
          "Oracle: no panic, buffering limits of C04, bounded ack list / shard sets / pool occupancy.",
          "DESIGN.md 5 C05"),
  "C06": ("fault_enumeration", "exhaustive corruption battery per datagram and history position with an independent integrity oracle and a reflective deep-state hash",
          "For every datagram of a real client/listener history under each of 14 ciphers x FEC off/on: every bit flip, every burst (L in a set / 2..32) at every offset in two patterns, every substitution of a stored CRC/tag byte, every truncation, "
-         "short and constant datagrams; the independent decoder decides which fail the check; for those a reflective deep hash of client, listener, sessions, FEC codecs, counters (except InCsumErrors) and pool occupancy must be unchanged.",
+         "short and constant datagrams; the independent decoder decides which fail the check; for those a reflective deep hash of client, listener, sessions, FEC codecs, counters (except InCsumErrors) and pool occupancy must be unchanged; too-short and corrupted datagrams also through the plain and batch receive loops with a blocked reader (functional oracle: reader undisturbed, counters, sessions, a second exchange).",
          "DESIGN.md 5 C06"),
  "C07": ("fault_enumeration", "exhaustive enumeration of arrival sequences over real encoder output into the real decoder",
          "For each (d,p), group position (incl. 2^31, wrap value; tracked and fresh decoder) and payload-size vector: every arrival sequence of length <= n+1 over the group's n packets plus two of the next group; "
-         "receivers that auto-tuned from another ratio at the wrap, at 2^31 and mid-space; for groups of more than 5 packets every arriving subset in four orders; when the d-th distinct packet arrives every missing data packet must have been reconstructed byte-exactly with zero padding, and everything emitted must be an original of its group; "
+         "receivers that auto-tuned from another ratio at the wrap, at 2^31 and mid-space; for groups of more than 5 packets every arriving subset in four orders; for groups of more than 64 packets every burst loss of length {1,2,p-1,p} at every position in three orders; when the d-th distinct packet arrives every missing data packet must have been reconstructed byte-exactly with zero padding, and everything emitted must be an original of its group; "
          "session level: a session fed all data packets but one plus parity, with no peer to retransmit, must deliver the whole stream.",
          "DESIGN.md 5 C07"),
  "C14": ("exploration", "ThreadSanitizer happens-before race check on every explored schedule of the real code under the controlled scheduler (HB-race mode)",
@@ -83,7 +83,7 @@ CHECKS = {
          "DESIGN.md 5 C14"),
  "C16": ("fault_enumeration", "exhaustive enumeration of sender/receiver ratio pairs x starting residues; fate vectors for stability",
          "Every (d,p) x (d',p') with d,d'<=4, p,p'<=3 and boundary pairs up to d+p=255, from every starting residue and three bases: the real decoder fed the real encoder's uninterrupted output must adopt the ratio within 258+2(d+p) packets "
-         "and then recover a single loss; with equal ratios every fate vector {deliver, drop, duplicate, swap} over the first K genuine packets must never set the tuning flag or change the ratio; whole sessions with different ratios at the two ends (or FEC at one end only) under every fate vector deliver both streams intact.",
+         "and then recover a single loss; with equal ratios every fate vector {deliver, drop, duplicate, swap} over the first K genuine packets must never set the tuning flag or change the ratio; whole sessions with different ratios at the two ends (or FEC at one end only) under every fate vector deliver both streams intact; one loss in every group from convergence to four groups past the sender's id wrap; sessions created without FEC or with another ratio fed an encoder's stream by hand must adopt the ratio and recover (nothing retransmits).",
          "DESIGN.md 5 C16"),
  "C11": ("fault_enumeration", "exhaustive fate-vector x injection enumeration on a real listener with several real clients; schedule deviations on a subset",
          "Listener + 2-3 dialled clients on the virtual network: every fate vector over the first K datagrams x one injected datagram (same address/other conversation with sn!=0, sn=0, ACK; foreign address replaying the conversation; "
